@@ -7,7 +7,7 @@ CONSTANTS
   Widths = {"none", "given"}
   Rules = {"0.5", "otsu"}
   MinRadii = {"zero", "one"}
-  RefineArgs = {"none", "auto"}
+  RefineArgs = {"none", "autoadjust"}
   Specials = {"const", "ramp", "noise"}
   Classes <- None
   Methods = {"overlap"}
